@@ -398,6 +398,104 @@ def runner_jobs(rng, n):
     return jobs
 
 
+
+# ------------------------------------------------------------------------------------------------ repair and retry
+REPAIR_FAULTS = ["orphan", "unconnected", "width", "array_width", "bad_slice"]   # caught by Orphanage / ConnTypes / ConnTypes / ArrayFlattener / ConnTypes (width of the slice)
+REPAIRS = ["simple", "refs", "bundle"]   # what the healthy replacement needs of the passes that had already completed on the parent
+
+
+def family():
+    @h.module
+    class Leaf:
+        a, b = h.Ports(2)
+    @h.bundle
+    class Bn:
+        x, y = h.Signals(2)
+    @h.module
+    class GoodSimple:
+        p = h.Port()
+        q = h.Signal()
+        l1 = Leaf(a=p, b=q)
+    @h.module
+    class GoodRefs:
+        p = h.Port()
+        l1 = Leaf(a=p)
+        l2 = Leaf(a=p, b=l1.b)
+    @h.module
+    class GoodBundle:
+        p = h.Port()
+        bp = Bn(port=True)
+        l1 = Leaf(a=p, b=bp.x)
+        l2 = Leaf(a=p, b=bp.y)
+    return Leaf, Bn, dict(simple=GoodSimple, refs=GoodRefs, bundle=GoodBundle)
+
+def bad(kind, Leaf):
+    Bad = h.Module(name="Bad"); Bad.p = h.Port()
+    if kind == "orphan":
+        Bad.l = Leaf(a=Bad.p, b=h.Signal())
+    elif kind == "unconnected":
+        Bad.l = Leaf(a=Bad.p)
+    elif kind == "width":
+        Bad.w = h.Signal(width=3); Bad.l = Leaf(a=Bad.p, b=Bad.w)
+    elif kind == "array_width":
+        Bad.w = h.Signal(width=3); Bad.arr = h.InstanceArray(Leaf, 2)(a=Bad.p, b=Bad.w)
+    elif kind == "bad_slice":
+        Bad.w = h.Signal(width=3); Bad.l = Leaf(a=Bad.p, b=Bad.w[5])
+    return Bad
+
+def top(Leaf, Bn, child, name="Top"):
+    Top = h.Module(name=name); Top.p = h.Port(); Top.s = h.Signal()
+    Top.keep = Leaf(a=Top.p, b=Top.s)
+    kw = dict(p=Top.p)
+    if "bp" in getattr(child, "bundles", {}):
+        Top.bb = Bn(); kw["bp"] = Top.bb
+    Top.c = child(**kw)
+    return Top
+
+def repair_case(fr):
+    fault, repair = fr
+    Leaf, Bn, goods = family()
+    ref = h.to_proto(top(Leaf, Bn, goods[repair])).SerializeToString(deterministic=True)
+    Leaf, Bn, goods = family()
+    T = top(Leaf, Bn, bad(fault, Leaf))
+    try:
+        h.to_proto(T); first = "returned"
+    except Exception as e:
+        first = "raised " + type(e).__name__
+    # repair: the offending child is replaced
+    try:
+        g = goods[repair]
+        kw = dict(p=T.p)
+        if repair == "bundle":
+            T.bb = Bn(); kw["bp"] = T.bb
+        T.c = g(**kw)
+        got = h.to_proto(T).SerializeToString(deterministic=True)
+        res = "equal" if got == ref else "DIFFERENT PACKAGE"
+    except Exception as e:
+        res = "raised " + type(e).__name__ + ": " + str(e).splitlines()[-1][:90]
+    return {"first": first, "repaired": res}
+
+
+
+def run_repairs(ctx):
+    """The child of `Top` fails in one of the checking / rewriting passes; the designer replaces that instance by a healthy module
+    (one that needs nothing of the earlier passes, one with an instance-to-instance reference, one with a bundle port) and
+    tries again: `Top` no longer contains the offending module and must come out as in a fresh process."""
+    rep = ctx.rep
+    cases = [(f, r) for f in REPAIR_FAULTS for r in REPAIRS]
+    for (f, r), res in zip(cases, common.pmap_fresh(repair_case, cases)):
+        case = {"stream": "repair", "fault": f, "repair": r}
+        rep.count("repair", json.dumps(case))
+        if not res["first"].startswith("raised"):
+            rep.fail("corr", case, {"why": "the planted fault was not refused", "result": res})
+        elif res["repaired"] == "equal":
+            pass
+        elif res["repaired"].startswith("raised"):
+            rep.fail("pred", case, {"why": "a design which no longer contains the offending module is refused after the repair (a fresh process builds it)", "result": res},
+                     f"repair:{f}/{r}")
+        else:
+            rep.fail("pred", case, {"why": "after the repair a package comes back which a fresh process does not return", "result": res})
+
 def run(ctx):
     rep, rng = ctx.rep, ctx.rng
     rep.extra["rule"] = (
@@ -609,6 +707,7 @@ def run(ctx):
             if mine != want:
                 rep.fail("corr", case, {"why": f"after call {k} the runner's state differs from the model's", "impl": got, "model": want})
                 break
+    run_repairs(ctx)
     rep.extra["scenarios"] = len(jobs)
     if jobs:
         rep.sample({"scenario": {k: v for k, v in jobs[0].items() if k not in ("unrelated", "design")}, "result": results[0]})
@@ -660,6 +759,13 @@ def reachable(d):
 
 
 def replay(ctx, rp):
-    j = rp["case"]["case"]
+    c = rp.get("case") or {}
+    if c.get("stream") == "repair":
+        res = common.pmap_fresh(repair_case, [(c["fault"], c["repair"])])[0]
+        print(json.dumps({"case": c, "result": res}))
+        if res["first"].startswith("raised") and res["repaired"] == "equal":
+            return 0
+        print(f"VIOLATION property=C08 replay={rp.get('_path', '<replay>')}")
+        return 1
     print(json.dumps(rp.get("detail"), default=str)[:2000])
     return 1
